@@ -327,6 +327,79 @@ def default_table_lemmas(tier_name):
     return recs
 
 
+# ------------------------------------------------------------------ directory enumeration on a real (temporary) tree
+LINK_KINDS = ["none", "file link to an in-tree file", "file link to an EXCLUDED in-tree file", "file link to a file outside the target", "directory link to an in-tree directory", "directory link to a directory outside the target"]
+
+
+def _lk(i: int) -> int:
+    k = 0
+    while k < len(LINK_KINDS) - 1:
+        if i % len(LINK_KINDS) == k:
+            return k
+        k += 1
+    return len(LINK_KINDS) - 1
+
+
+def enumeration_symlinks(k1: int, k2: int, user_exclude: bool) -> bool:
+    """files_for_directory + match_files on a REAL temporary tree (created under the run's TMPDIR, removed afterwards)
+    holding regular files and up to two symbolic links of symbolic kind (file / directory link, target in the tree,
+    excluded, or outside the target): every regular file that the patterns select is returned; no returned path is a
+    symbolic link; and no returned path resolves to a file that is excluded or lies outside the target - the write
+    that follows would land there.
+    post: _
+    """
+    import shutil
+    import tempfile
+
+    from crosshair.tracers import NoTracing
+    from vlib.core import fin
+
+    kinds = [_lk(k1), _lk(k2)]
+    user_exclude = True if user_exclude else False  # decided (forked) before the concrete part
+    with NoTracing():
+        top = Path(tempfile.mkdtemp(prefix="c05_"))
+        try:
+            root, outside = top / "target", top / "outside"
+            for d in (root / "pkg", root / "tests", root / "legacy", outside / "lib"):
+                d.mkdir(parents=True)
+            for f in (root / "pkg" / "a.py", root / "tests" / "helpers.py", root / "legacy" / "old.py", outside / "ext.py", outside / "lib" / "m.py"):
+                f.write_text("x = 1\n")
+            for i, k in enumerate(kinds):
+                link = root / "pkg" / ("l%d.py" % i if k in (1, 2, 3) else "ld%d" % i)
+                if k == 1:
+                    link.symlink_to(root / "pkg" / "a.py")
+                elif k == 2:
+                    link.symlink_to(root / ("legacy/old.py" if user_exclude else "tests/helpers.py"))
+                elif k == 3:
+                    link.symlink_to(outside / "ext.py")
+                elif k == 4:
+                    link.symlink_to(root / "legacy", target_is_directory=True)
+                elif k == 5:
+                    link.symlink_to(outside / "lib", target_is_directory=True)
+            exclude = ["legacy/**"] if user_exclude else None
+            files = cd.files_for_directory(root)
+            got = cd.match_files(root, files, exclude, None)
+            rroot = root.resolve()
+            # match_files semantics: a user exclude list REPLACES the default excludes
+            ok = (root / "pkg" / "a.py") in got and ((root / "tests" / "helpers.py") in got) == user_exclude
+            ok = ok and ((root / "legacy" / "old.py") in got) == (not user_exclude)
+            for pth in got:
+                real = pth.resolve()
+                if pth.is_symlink() or not real.is_relative_to(rroot):
+                    ok = False
+                    continue
+                rel = str(real.relative_to(rroot))
+                if rel.startswith("legacy/" if user_exclude else "tests/"):
+                    ok = False  # an excluded file reached through another name
+        finally:
+            shutil.rmtree(top, ignore_errors=True)
+    return fin(ok)
+
+
+def warmup():
+    enumeration_symlinks(1, 4, True)
+
+
 SPEC = {
     "property": "C05",
     "level": "model_checking",
@@ -336,6 +409,7 @@ SPEC = {
         "CodemodExecutionContext.find_and_fix_paths / filter_paths / included_paths",
         "FindAndFixCodemod.get_files_to_analyze, RemediationCodemod.get_files_to_analyze",
         "fnmatch.translate output for every pattern (captured, translated by symre)",
+        "codemodder.code_directory.files_for_directory + match_files on a real temporary tree with symbolic links (E1 selectors over link kinds)",
     ],
     "bounds": {
         "quick": "relative path p: z3 string, |p| <= 64, any characters but NUL, non-empty components; user configurations: include and exclude lists of length <= 1 (+3 two-element lists) over 5 glob templates, 2 of them also with a ':3' suffix, find-and-fix and SAST mode, sentinel suffix .py / other; all decision vectors (default tables: <= 2 true excludes x all include subsets)",
@@ -347,8 +421,8 @@ SPEC = {
         "symre's translation of fnmatch.translate output is validated against `re` on sample paths on every run",
     ],
     "stubs": ["fnmatch.filter in code_directory (decision vector, records patterns, leak guard)", "CodemodExecutionContext.files_to_analyze (one sentinel file)", "registry default include paths"],
-    "outside": ["symlink handling and 'nothing outside the target is written' (file-system behaviour)", "'every selected file with a trigger is fixed' (whole codemod runs)", "directory enumeration (files_for_directory)"],
+    "outside": ["symlink layouts beyond two links of the 6 kinds listed (chains, loops, links created during the run)", "'every selected file with a trigger is fixed' (whole codemod runs)"],
     "rule": "evaluations = decision vectors executed through the real selection code; distinct_nontrivial = distinct (mode, include list, exclude list) configurations; solver queries = feasibility of differing vectors + table lemmas",
     "drivers": [default_table_lemmas, structure],
-    "xh": [],
+    "xh": [__import__("vlib.main", fromlist=["Xh"]).Xh("enumeration_symlinks", 100, 200)],
 }
